@@ -160,12 +160,22 @@ def ctor_fields(chk, rule, rel, cls, fields, why):
     from .astutil import stores as _stores, parent as _parent
     fn = chk.fn(rel, f"{cls}.__init__")
     params = [a.arg for a in fn.args.args + fn.args.kwonlyargs]
+    cdef = chk.idx.cls(rel, cls)
+    # a property (or any class-level binding) of the field's name stands between `obj.field = v` and what is read back: a setter
+    # may convert or reject, and objects filled through `__dict__.update` (from_dict) bypass it while reads do not
+    shadows = {m.name for m in cdef.body if isinstance(m, _ast.FunctionDef) and m.decorator_list} | \
+        {t.id for m in cdef.body if isinstance(m, (_ast.Assign, _ast.AnnAssign)) for t in (m.targets if isinstance(m, _ast.Assign) else [m.target])
+         if isinstance(t, _ast.Name) and isinstance(getattr(m, "value", None), _ast.Call)}
     for f in fields:
-        sts = [(t, v, s0) for t, v, s0 in _stores(fn) if isinstance(t, _ast.Attribute) and norm(t.value) == "self" and t.attr == f]
-        ok = f in params and len(sts) == 1 and isinstance(sts[0][1], _ast.Name) and sts[0][1].id == f and _parent(sts[0][2]) is fn
-        chk.ob(rule, f"{rel}:{cls}.__init__", f"field-is-its-parameter[{f}]", ok,
-               f"`{cls}(…, {f}=v)` makes `obj.{f}` equal to v: one unconditional store of the parameter into the attribute ({why})",
-               node=sts[0][2] if sts else fn, strength="N", stores=[norm(s0)[:80] for t, v, s0 in sts])
+        p_ = f if not isinstance(f, tuple) else f[1]
+        a_ = f if not isinstance(f, tuple) else f[0]
+        sts = [(t, v, s0) for t, v, s0 in _stores(fn) if isinstance(t, _ast.Attribute) and norm(t.value) == "self" and t.attr == a_]
+        ok = p_ in params and len(sts) == 1 and isinstance(sts[0][1], _ast.Name) and sts[0][1].id == p_ and _parent(sts[0][2]) is fn \
+            and a_ not in shadows
+        chk.ob(rule, f"{rel}:{cls}.__init__", f"field-is-its-parameter[{a_}]", ok,
+               f"`{cls}(…, {p_}=v)` makes `obj.{a_}` equal to v: one unconditional store of the parameter into a plain attribute ({why})",
+               node=sts[0][2] if sts else fn, strength="N", stores=[norm(s0)[:80] for t, v, s0 in sts],
+               **({"shadowed_by": "a property / descriptor of that name in the class"} if a_ in shadows else {}))
 
 
 def mean_facts(chk):
